@@ -4,25 +4,36 @@
 Reactive model (a labelled transition system observed *at quiescence*, integer virtual time) of
 
 * `rawsocket.py` / `unixsocket.py`: `connection_made`, `connection_lost`, `process_messages`
-  (`finally: _closed_event.set()`), `close(force_after)`, `abort`, `is_closing`;
+  (`finally: _closed_event.set()`; abort of the asyncio transport when message processing ends
+  for another reason than the loss - repair F25), `close(force_after)` (forced abort after
+  `force_after`, and - repair F25 - when the caller is cancelled while it waits), `abort`,
+  `is_closing`;
 * `session.py`: `SessionBase._process_messages` (hook in `finally`), `process_messages`
-  (`async with self._group`: the TaskGroup exit cancels and awaits every handler), `close`,
-  `abort`, `RPCSession.connection_lost` -> `JSONRPCConnection.cancel_pending_requests`,
-  `send_request` (`timeout_after(sent_request_timeout)` around the future);
+  (`async with self._group`: the TaskGroup exit cancels and awaits every handler; a handler task
+  that ended with a cancellation makes `task.result()` raise, which tears the group down as
+  well), `close`, `abort`, `RPCSession.connection_lost` ->
+  `JSONRPCConnection.cancel_pending_requests`, `send_request`
+  (`timeout_after(sent_request_timeout)` around the future), `_throttled_request` /
+  `_throttled_message` (`timeout_after(processing_timeout)` around the handler);
 * `curio.py`: TaskGroup exit (C09), `timeout_after` (C11) as used above.
 
 One environment event = one thing the application / peer / network / clock does, followed by
 running everything runnable (the model's step function mirrors the code's order of effects).
 
-Teardown after the asyncio transport delivered `connection_lost` (which it does exactly once:
+Teardown - when the asyncio transport delivers `connection_lost` (which it does exactly once:
 after `close()` unless the send buffer never drains - `stalled` -, after `abort()`, or when the
-link drops):
+link drops), or when a handler task ends with a cancellation the session did not ask for:
 
-    framer.fail(ConnectionLostError)  ->  the message loop ends  ->  `finally:` hook
-    (RPCSession: every pending request future is cancelled)  ->  the TaskGroup exit cancels every
-    handler (a prompt one ends at once, a stubborn one after `react` more seconds, one blocked in
-    `close()` is cancelled there)  ->  when the last handler is done `_closed_event` is set  ->
-    every task waiting in `close()` returns.
+    the message loop ends  ->  `finally:` hook (RPCSession: every pending request future is
+    cancelled)  ->  the TaskGroup exit cancels every handler (a prompt one ends at once, a
+    stubborn one after `react` more seconds or when its processing timeout cuts that short, one
+    blocked in `close()` is cancelled there)  ->  when the last handler is done `_closed_event`
+    is set (and the asyncio transport aborted if the connection is not lost yet)  ->  every
+    task waiting in `close()` returns.
+
+The model mirrors the code *with repair F25 applied* (`fixed = true`); the places where
+the pinned code differs are switched by the field `fixed` (`closerDeadline`, `S.cancelClose`,
+`S.settle`, `S.crash`), so that the pinned behaviour stays available for the witnesses.
 
 No Mathlib imports (the driver links this file).
 -/
@@ -31,19 +42,29 @@ namespace Aiorpcx.C08
 inductive HKind where
   /-- returns at once (never seen running at quiescence) -/
   | quick
-  /-- runs until the application lets it finish (`handlerFinish`) or it is cancelled -/
+  /-- runs until the application lets it finish (`handlerFinish`), the future it awaits is
+      cancelled (`handlerCancel`), its processing timeout fires, or it is cancelled -/
   | slow
   /-- like `slow`, but when cancelled it works `react` more seconds before giving in -/
   | stubborn (react : Nat)
   /-- calls `session.close(force_after)` from inside the handler; `deadline` = the instant its
-      `timeout_after(force_after)` fires -/
+      wait for `_closed_event` is cut short: by `timeout_after(force_after)` or by the handler's
+      processing timeout, whichever comes first; either way `abort()` follows (repair F25; in
+      the pinned code only in the first case) -/
   | closer (deadline : Nat)
   /-- calls `session.abort()` and returns -/
   | aborter
+  /-- waits like `slow`; when the application lets it go on (`handlerFinish`) it calls
+      `session.close(force_after)` - some time into its processing window -/
+  | thenClose (forceAfter : Nat)
   deriving Repr, DecidableEq
 
 inductive HStatus where
   | run
+  /-- the processing timeout has fired, the (stubborn) handler works on until `until_` and then
+      ends through the TaskTimeout path -/
+  | overrun (until_ : Nat)
+  /-- cancelled by the TaskGroup exit, the (stubborn) handler works on until `until_` -/
   | reacting (until_ : Nat)
   | done
   deriving Repr, DecidableEq
@@ -52,9 +73,14 @@ structure Handler where
   id : Nat
   kind : HKind
   status : HStatus
+  /-- the instant `timeout_after(processing_timeout)` around the handler fires -/
+  pdl : Nat
   deriving Repr, DecidableEq
 
 inductive TStatus where
+  /-- the caller waits for a slot of the outgoing-concurrency limiter (its future is
+      registered, the request is not sent yet, no timeout runs) -/
+  | queued
   | pending
   | answered
   | cancelled
@@ -76,6 +102,8 @@ inductive CStatus where
   /-- `force_after` passed: `abort()` was called, now waiting for `_closed_event` without limit -/
   | abortedWaiting
   | returned (at_ : Nat)
+  /-- the application cancelled the task while it was inside `close()` -/
+  | cancelled (at_ : Nat)
   deriving Repr, DecidableEq
 
 /-- an application task inside `close(force_after)` -/
@@ -87,19 +115,37 @@ structure Closer where
   st : CStatus
   deriving Repr, DecidableEq
 
+/-- what made the asyncio transport deliver `connection_lost` (ghost) -/
+inductive Cause where
+  /-- the link broke / the peer closed -/
+  | link
+  /-- a graceful `close()` of the asyncio transport completed -/
+  | graceful
+  /-- `abort()` on the asyncio transport -/
+  | abort
+  deriving Repr, DecidableEq
+
 structure S where
   /-- `RPCSession.sent_request_timeout` -/
   reqTimeout : Nat := 30
+  /-- `SessionBase.processing_timeout` -/
+  procTimeout : Nat := 30
+  /-- the outgoing-concurrency limit (constant here: the recalibration of C20 is switched off
+      in the runs compared with this model) -/
+  outLimit : Nat := 50
   /-- a graceful `close()` of the asyncio transport never completes (the peer does not read):
       `connection_lost` comes only with `abort()` or when the link drops -/
   stalled : Bool := false
+  /-- the code with repair F25 (`true`) or as pinned (`false`) -/
+  fixed : Bool := true
   now : Nat := 0
   /-- the asyncio transport's `is_closing()` -/
   closing : Bool := false
   /-- `connection_lost` has been delivered to the protocol -/
   lost : Bool := false
-  /-- the `_process_messages` task is running -/
-  loopAlive : Bool := true
+  /-- message processing has been torn down: the `_process_messages` task has ended and the
+      connection_lost hook has run -/
+  down : Bool := false
   /-- how often the session's `connection_lost` hook has run -/
   hookRuns : Nat := 0
   handlers : List Handler := []
@@ -109,17 +155,30 @@ structure S where
   closedEvent : Bool := false
   /-- ghost: the instant `_closed_event` was set -/
   closedAt : Option Nat := none
-  /-- the instants at which `abort()` was called on the asyncio transport -/
-  aborts : List Nat := []
+  /-- the instant of the first `abort()` on the asyncio transport that came before
+      `connection_lost` was delivered (later ones do nothing) -/
+  abortedAt : Option Nat := none
+  /-- ghost: the instant `connection_lost` was delivered, and why -/
+  lostAt : Option Nat := none
+  lostBy : Option Cause := none
   deriving Repr, DecidableEq
 
 /-- `RSTransport.is_closing()` -/
 def S.isClosing (s : S) : Bool := s.closedEvent || s.closing
 
+/-- the `_process_messages` task is running -/
+def S.loopAlive (s : S) : Bool := !s.down
+
 inductive Event where
   /-- the peer's request `i` arrives; its handler is of kind `k` (`arg` = react / force_after) -/
   | request (i : Nat) (k : HKind)
+  /-- request `i` whose handler replies and disconnects: `close(force_after)` after the
+      processing timeout's scope -/
+  | replyClose (i : Nat) (forceAfter : Nat)
   | handlerFinish (i : Nat)
+  /-- the application cancels the future a `slow` handler is awaiting: the handler's task ends
+      with CancelledError -/
+  | handlerCancel (i : Nat)
   /-- an application task calls `send_request` -/
   | outgoing (k : Nat)
   /-- the peer answers outgoing request `k` -/
@@ -128,6 +187,8 @@ inductive Event where
   | drop
   /-- an application task calls `close(force_after)` -/
   | appClose (c : Nat) (forceAfter : Nat)
+  /-- the application cancels task `c` while it is inside `close()` -/
+  | cancelClose (c : Nat)
   | abort
   | advance (dt : Nat)
   deriving Repr, DecidableEq
@@ -136,108 +197,145 @@ inductive Event where
 
 def Handler.isDone (h : Handler) : Bool := h.status == HStatus.done
 
-/-- `task.cancel()` reaches a handler (TaskGroup exit) at time `now` -/
+/-- blocked inside `close(force_after)` -/
+def Handler.inClose (h : Handler) : Bool :=
+  h.status == HStatus.run && (match h.kind with | .closer _ => true | _ => false)
+
+/-- `task.cancel()` reaches a handler (TaskGroup exit) at time `now`: a stubborn one works on
+for `react` seconds, but not beyond its processing deadline (that second cancellation ends it);
+one that was already overrunning its processing timeout ends at once -/
 def cancelHandler (now : Nat) (h : Handler) : Handler :=
   match h.status with
   | .run =>
     match h.kind with
-    | .stubborn (r + 1) => { h with status := .reacting (now + (r + 1)) }
+    | .stubborn (r + 1) => { h with status := .reacting (min (now + (r + 1)) h.pdl) }
     | _ => { h with status := .done }
+  | .overrun _ => { h with status := .done }
   | _ => h
 
 /-- `cancel_pending_requests`: `future.cancel()` for every future not yet done -/
 def cancelTicket (t : Ticket) : Ticket :=
   match t.status with
   | .pending => { t with status := .cancelled }
+  | .queued => { t with status := .cancelled }
   | _ => t
+
+/-- how many requests hold a slot of the outgoing limiter -/
+def inflight (ts : List Ticket) : Nat := (ts.filter fun t => t.status == TStatus.pending).length
+
+/-- `free` slots of the outgoing limiter go to the callers queued first: each sends its request
+and starts its `timeout_after(sent_request_timeout)` now -/
+def promoteList (now rt : Nat) : Nat → List Ticket → List Ticket
+  | _, [] => []
+  | 0, ts => ts
+  | free + 1, t :: ts =>
+    match t.status with
+    | .queued => { t with status := .pending, deadline := now + rt } :: promoteList now rt free ts
+    | _ => t :: promoteList now rt (free + 1) ts
+
+/-- the limiter hands out its free slots -/
+def S.promote (s : S) : S :=
+  { s with tickets := promoteList s.now s.reqTimeout (s.outLimit - inflight s.tickets) s.tickets }
 
 def returnCloser (now : Nat) (c : Closer) : Closer :=
   match c.st with
-  | .returned _ => c
-  | _ => { c with st := .returned now }
+  | .waiting => { c with st := .returned now }
+  | .abortedWaiting => { c with st := .returned now }
+  | _ => c
 
-/-- `connection_lost` delivered: the message loop ends, the hook runs, every handler is
-cancelled -/
+/-- the message loop ends, the hook runs, every handler is cancelled -/
 def S.teardown (s : S) : S :=
-  { s with closing := true, lost := true, loopAlive := false, hookRuns := s.hookRuns + 1,
+  { s with down := true, hookRuns := s.hookRuns + 1,
            tickets := s.tickets.map cancelTicket,
            handlers := s.handlers.map (cancelHandler s.now) }
 
-/-- once the connection is lost and the last handler is done the TaskGroup exit completes,
-`process_messages` runs its `finally: self._closed_event.set()` and every `close()` returns -/
+/-- once message processing is torn down and the last handler is done the TaskGroup exit
+completes, `process_messages` runs its `finally: self._closed_event.set()` and every `close()`
+returns; if that happens although the connection is not lost (a handler task was cancelled from
+outside), the asyncio transport is aborted (repair F25) -/
 def S.settle (s : S) : S :=
-  if s.lost && !s.closedEvent && s.handlers.all Handler.isDone then
-    { s with closedEvent := true, closedAt := some s.now,
-             closers := s.closers.map (returnCloser s.now) }
+  if s.down && !s.closedEvent && s.handlers.all Handler.isDone then
+    let s1 : S := { s with closedEvent := true, closedAt := some s.now,
+                           closers := s.closers.map (returnCloser s.now) }
+    if s.fixed && !s.lost then
+      { s1 with abortedAt := some s.now, closing := true, lost := true,
+                lostAt := some s.now, lostBy := some .abort }
+    else s1
   else s
 
 /-- the asyncio transport delivers `connection_lost` - exactly once -/
-def S.lose (s : S) : S :=
-  if s.lost then s else s.teardown.settle
+def S.lose (s : S) (why : Cause) : S :=
+  if s.lost then s
+  else
+    let s1 : S := { s with lost := true, lostAt := some s.now, lostBy := some why }
+    (if s.down then s1 else s1.teardown).settle
 
-/-- `transport.abort()` -/
+/-- `transport.abort()`: only the first one before `connection_lost` has an effect -/
 def S.doAbort (s : S) : S :=
-  S.lose { s with aborts := s.aborts ++ [s.now], closing := true }
+  if s.lost then s
+  else S.lose { s with abortedAt := some s.now, closing := true } .abort
 
 /-- `self._asyncio_transport.close()` -/
 def S.transportClose (s : S) : S :=
   if s.closing then s
   else if s.stalled then { s with closing := true }
-  else S.lose { s with closing := true }
+  else S.lose { s with closing := true } .graceful
 
 def usedHandler (s : S) (i : Nat) : Bool := s.handlers.any (·.id == i)
 def usedTicket (s : S) (k : Nat) : Bool := s.tickets.any (·.id == k)
 def usedCloser (s : S) (c : Nat) : Bool := s.closers.any (·.id == c)
 
-/-! ## timers -/
+/-! ## timers (asyncio runs every timer that is due) -/
 
 /-- `timeout_after(sent_request_timeout)` fires: the caller gets TaskTimeout -/
 def expireTicket (now : Nat) (t : Ticket) : Ticket :=
   match t.status with
-  | .pending => if t.deadline == now then { t with status := .timedOut now } else t
+  | .pending => if t.deadline ≤ now then { t with status := .timedOut now } else t
   | _ => t
 
 def closerDue (now : Nat) (c : Closer) : Bool :=
-  c.st == CStatus.waiting && c.deadline == now
+  c.st == CStatus.waiting && c.deadline ≤ now
 
 /-- `except TaskTimeout: await self.abort(); await self._closed_event.wait()` -/
 def abortCloser (now : Nat) (c : Closer) : Closer :=
   if closerDue now c then { c with st := .abortedWaiting } else c
 
-/-- a handler blocked in `close(force_after)` whose timer fires now (it aborts and keeps
-waiting; the teardown that follows cancels it there) -/
+/-- a handler blocked in `close(force_after)` whose wait is cut short now (it aborts; the
+teardown that follows ends it) -/
 def handlerDue (now : Nat) (h : Handler) : Bool :=
-  h.status == HStatus.run && h.kind == HKind.closer now
+  h.status == HStatus.run && (match h.kind with | .closer d => d ≤ now | _ => false)
 
-/-- a stubborn handler's reaction to its cancellation ends -/
-def finishReaction (now : Nat) (h : Handler) : Handler :=
+/-- what the timers of one handler do at `now`: the processing timeout ends a waiting handler
+(a stubborn one works on for `react` seconds); a reaction ends; a handler blocked in `close()`
+past its deadline is through (see `handlerDue`) -/
+def fireHandler (now : Nat) (h : Handler) : Handler :=
   match h.status with
-  | .reacting u => if u == now then { h with status := .done } else h
-  | _ => h
+  | .run =>
+    match h.kind with
+    -- (`h.pdl ≤ now` alone: pinned code only, where the processing timeout ends the handler
+    -- without an abort; with the repair `d ≤ h.pdl`)
+    | .closer d => if d ≤ now || h.pdl ≤ now then { h with status := .done } else h
+    | .stubborn (r + 1) => if h.pdl ≤ now then { h with status := .overrun (now + (r + 1)) } else h
+    | _ => if h.pdl ≤ now then { h with status := .done } else h
+  | .overrun u => if u ≤ now then { h with status := .done } else h
+  | .reacting u => if u ≤ now then { h with status := .done } else h
+  | .done => h
 
-/-- one second passes -/
-def S.bump (s : S) : S := { s with now := s.now + 1 }
+/-- does some task sit in `close()` with its wait cut short now? -/
+def S.anyDue (s : S) : Bool :=
+  s.closers.any (closerDue s.now) || s.handlers.any (handlerDue s.now)
 
-/-- request timeouts due now (their futures are cancelled inside the timer callbacks) -/
-def S.expire (s : S) : S := { s with tickets := s.tickets.map (expireTicket s.now) }
-
-/-- how many tasks sit in `close()` with their `force_after` timer due now -/
-def S.dueCount (s : S) : Nat :=
-  (s.closers.filter (closerDue s.now)).length + (s.handlers.filter (handlerDue s.now)).length
-
-/-- the `force_after` timers due now: each such task calls `abort()` and keeps waiting; the
-asyncio transport delivers `connection_lost` one loop iteration later -/
-def S.fireClosers (s : S) : S :=
-  let s2 : S := { s with closers := s.closers.map (abortCloser s.now),
-                         aborts := s.aborts ++ List.replicate s.dueCount s.now }
-  if s.dueCount == 0 then s2 else S.lose { s2 with closing := true }
-
-/-- stubborn handlers whose reaction ends now -/
-def S.endReactions (s : S) : S := { s with handlers := s.handlers.map (finishReaction s.now) }
-
-/-- one second passes and the timers due at the new instant fire: request timeouts first, then
-the `force_after` timers, then reactions end; then the TaskGroup exit may complete -/
-def S.tick (s : S) : S := s.bump.expire.fireClosers.endReactions.settle
+/-- one second passes and the timers due at the new instant fire: request timeouts, processing
+timeouts, reaction ends, the `force_after` timers (each such task calls `abort()`; the asyncio
+transport delivers `connection_lost` a loop iteration later, after everything else due now);
+then the TaskGroup exit may complete -/
+def S.tick (s : S) : S :=
+  let s1 : S := { s with now := s.now + 1 }
+  let s2 : S := S.promote
+    { s1 with tickets := s1.tickets.map (expireTicket s1.now),
+              handlers := s1.handlers.map (fireHandler s1.now),
+              closers := s1.closers.map (abortCloser s1.now) }
+  if s1.anyDue then s2.doAbort.settle else s2.settle
 
 def S.advance (s : S) : Nat → S
   | 0 => s
@@ -255,45 +353,125 @@ def finishHandler (i : Nat) (h : Handler) : Handler :=
   if h.id == i && h.status == HStatus.run && h.kind.finishable
   then { h with status := .done } else h
 
+/-- the `force_after` with which handler `h` calls `close()` if it is the waiting handler `i`
+that is now let go on -/
+def resuming (i : Nat) (h : Handler) : Option Nat :=
+  if h.id == i && h.status == HStatus.run then
+    match h.kind with
+    | .thenClose fa => some fa
+    | _ => none
+  else none
+
+/-- ... it is inside `close(force_after)` from now on, until `force_after` or - repaired code -
+its processing deadline (with `force_after = 0` it is through at once, see `S.startCloser`) -/
+def toCloser (fixed : Bool) (now i : Nat) (h : Handler) : Handler :=
+  if h.id == i && h.status == HStatus.run then
+    match h.kind with
+    | .thenClose fa =>
+      { h with kind := .closer (if fixed then min (now + fa) h.pdl else now + fa),
+               status := if fa == 0 then .done else .run }
+    | _ => h
+  else h
+
+def crashHandler (i : Nat) (h : Handler) : Handler :=
+  if h.id == i && h.status == HStatus.run && h.kind == HKind.slow
+  then { h with status := .done } else h
+
 def answerTicket (k : Nat) (t : Ticket) : Ticket :=
   if t.id == k && t.status == TStatus.pending then { t with status := .answered } else t
 
+/-- the instant at which a handler's wait inside `close(force_after)` is cut short *with an
+abort*: by its `force_after` timer or - repaired code only - by the handler's processing
+timeout.  In the pinned code the processing timeout ends the handler *without* an abort (the
+TimeoutCancellationError passes `except TaskTimeout`): see `fireHandler`. -/
+def closerDeadline (fixed : Bool) (now fa pt : Nat) : Nat :=
+  if fixed then min (now + fa) (now + pt) else now + fa
+
+/-- a handler that calls `close()`: it is blocked there until `d`; `immediate`: force_after = 0
+(timeout_after(0): the timer is due at once, so `abort()` follows the `close()` in the same
+instant - after the `connection_lost` of a graceful close that completes, which then makes it
+void) -/
+def S.startCloser (s : S) (i d pdl : Nat) (immediate : Bool) : S :=
+  if immediate then
+    -- (the handler is through in this very instant: the abort, or the loss a completed
+    -- graceful close brought just before it, tears everything down)
+    (S.transportClose { s with handlers := s.handlers ++ [⟨i, .closer d, .done, pdl⟩] }).doAbort
+  else S.transportClose { s with handlers := s.handlers ++ [⟨i, .closer d, .run, pdl⟩] }
+
 /-- the handler of request `i` starts and runs until it first blocks -/
 def S.startHandler (s : S) (i : Nat) (k : HKind) : S :=
+  let pdl := s.now + s.procTimeout
   match k with
-  | .quick => { s with handlers := s.handlers ++ [⟨i, .quick, .done⟩] }
-  | .slow => { s with handlers := s.handlers ++ [⟨i, .slow, .run⟩] }
-  | .stubborn r => { s with handlers := s.handlers ++ [⟨i, .stubborn r, .run⟩] }
-  | .aborter => S.doAbort { s with handlers := s.handlers ++ [⟨i, .aborter, .done⟩] }
+  | .quick => { s with handlers := s.handlers ++ [⟨i, .quick, .done, pdl⟩] }
+  | .slow => { s with handlers := s.handlers ++ [⟨i, .slow, .run, pdl⟩] }
+  | .stubborn r => { s with handlers := s.handlers ++ [⟨i, .stubborn r, .run, pdl⟩] }
+  | .aborter => S.doAbort { s with handlers := s.handlers ++ [⟨i, .aborter, .done, pdl⟩] }
+  | .thenClose fa => { s with handlers := s.handlers ++ [⟨i, .thenClose fa, .run, pdl⟩] }
   | .closer fa =>
     -- `fa` is the force_after argument here; the record stores the absolute deadline
-    let s1 : S := { s with handlers := s.handlers ++ [⟨i, .closer (s.now + fa), .run⟩] }
-    -- timeout_after(0): the timer is due at once, before a graceful close can complete, so
-    -- `abort()` follows the `close()` in the same instant (the pair acts like the abort alone)
-    if fa == 0 then s1.doAbort else S.transportClose s1
+    s.startCloser i (closerDeadline s.fixed s.now fa s.procTimeout) pdl (fa == 0)
+
+/-- a handler task ends with a cancellation nobody in the session asked for: `task.result()`
+raises in `process_messages`, the TaskGroup is torn down (hook, every other handler cancelled);
+a handler cancelled inside `close()` aborts (repair F25) -/
+def S.crash (s : S) (i : Nat) : S :=
+  if s.down || !(s.handlers.any fun h => h.id == i && h.status == HStatus.run && h.kind == HKind.slow)
+  then s
+  else
+    let s1 : S := { s with handlers := s.handlers.map (crashHandler i) }
+    let inClose := s1.handlers.any Handler.inClose
+    let s2 := s1.teardown
+    (if s.fixed && inClose then s2.doAbort else s2).settle
+
+def cancelCloser (now : Nat) (c : Nat) (x : Closer) : Closer :=
+  if x.id == c && (x.st == .waiting || x.st == .abortedWaiting)
+  then { x with st := .cancelled now } else x
+
+/-- the application cancels task `c` inside `close()`: if it was still in the bounded wait it
+aborts before it goes (repair F25) -/
+def S.cancelClose (s : S) (c : Nat) : S :=
+  let hit := s.closers.any fun x => x.id == c && x.st == .waiting
+  let s1 : S := { s with closers := s.closers.map (cancelCloser s.now c) }
+  if s.fixed && hit then s1.doAbort else s1
 
 def step (s : S) : Event → S
   | .request i k =>
-    -- asyncio delivers no data once the transport is closing
-    if s.closing || s.lost || usedHandler s i then s else s.startHandler i k
+    -- asyncio delivers no data once the transport is closing; a dead session does not read
+    if s.closing || s.down || usedHandler s i then s else s.startHandler i k
+  | .replyClose i fa =>
+    -- the handler raises ReplyAndDisconnect: the reply is sent and `close(force_after)` is
+    -- called *outside* `timeout_after(processing_timeout)`
+    if s.closing || s.down || usedHandler s i then s
+    else s.startCloser i (s.now + fa) (s.now + fa) (fa == 0)
   | .handlerFinish i =>
-    if s.lost then s else { s with handlers := s.handlers.map (finishHandler i) }
+    match s.handlers.findSome? (resuming i) with
+    | none => { s with handlers := s.handlers.map (finishHandler i) }
+    | some fa =>
+      -- a handler that waited now calls `close(force_after)`
+      let s1 : S := { s with handlers := s.handlers.map (toCloser s.fixed s.now i) }
+      if fa == 0 then s1.transportClose.doAbort else s1.transportClose
+  | .handlerCancel i => s.crash i
   | .outgoing k =>
     if usedTicket s k then s
-    else { s with tickets := s.tickets ++ [⟨k, .pending, s.now + s.reqTimeout, s.lost⟩] }
+    else if inflight s.tickets < s.outLimit then
+      { s with tickets := s.tickets ++ [⟨k, .pending, s.now + s.reqTimeout, s.down⟩] }
+    else { s with tickets := s.tickets ++ [⟨k, .queued, 0, s.down⟩] }
   | .answer k =>
-    if s.closing || s.lost then s else { s with tickets := s.tickets.map (answerTicket k) }
-  | .drop => S.lose { s with closing := true }
+    if s.closing || s.down then s
+    else S.promote { s with tickets := s.tickets.map (answerTicket k) }
+  | .drop => S.lose { s with closing := true } .link
   | .appClose c fa =>
     if usedCloser s c then s
     else if s.closedEvent then
       -- `_closed_event.wait()` returns without suspending
-      { s with closers := s.closers ++ [⟨c, s.now, s.now + fa, .returned s.now⟩] }
+      S.transportClose { s with closers := s.closers ++ [⟨c, s.now, s.now + fa, .returned s.now⟩] }
     else if fa == 0 then
-      -- timeout_after(0): the timer is due at once, before a graceful close can complete
-      -- (close() and abort() in the same instant act like the abort alone)
-      S.doAbort { s with closers := s.closers ++ [⟨c, s.now, s.now, .abortedWaiting⟩] }
+      -- timeout_after(0): the timer is due at once: `abort()` follows in the same instant (void
+      -- if the graceful close completed, whose `connection_lost` comes first)
+      (S.transportClose
+        { s with closers := s.closers ++ [⟨c, s.now, s.now, .abortedWaiting⟩] }).doAbort
     else S.transportClose { s with closers := s.closers ++ [⟨c, s.now, s.now + fa, .waiting⟩] }
+  | .cancelClose c => s.cancelClose c
   | .abort => s.doAbort
   | .advance dt => s.advance dt
 
@@ -301,6 +479,12 @@ def run (s : S) : List Event → S
   | [] => s
   | e :: es => run (step s e) es
 
-def init (reqTimeout : Nat) (stalled : Bool) : S := { reqTimeout := reqTimeout, stalled := stalled }
+def init (reqTimeout procTimeout outLimit : Nat) (stalled : Bool) : S :=
+  { reqTimeout := reqTimeout, procTimeout := procTimeout, outLimit := outLimit, stalled := stalled }
+
+/-- the same connection with the code as pinned (without repair F25) -/
+def initPinned (reqTimeout procTimeout outLimit : Nat) (stalled : Bool) : S :=
+  { reqTimeout := reqTimeout, procTimeout := procTimeout, outLimit := outLimit,
+    stalled := stalled, fixed := false }
 
 end Aiorpcx.C08
